@@ -4,6 +4,7 @@ JOBS = [
     Job('findend.prefix.n8', 'C14/framing.cpp', 'h_findend_prefix', 'A', defs={'NB': 8}, unwind=11, reach=['findend_prefix'], timeout=3400, tier='thorough', clause='raw framing scan: prefix stability on all byte strings <= 8'),
     Job('findend.string', 'C14/framing.cpp', 'h_findend_string', 'A', unwind=18, reach=['findend_string'], timeout=900, clause='raw framing scan respects string syntax (escaped quotes, backslashes, braces inside strings)'),
     Job('header.any', 'C14/proto.cpp', 'h_header_any', 'B', reach=['header_any'], timeout=900, clause='length-prefixed framing on arbitrary 6 header bytes incl. extreme lengths: result by return value'),
+    Job('raw.any.n3', 'C14/proto.cpp', 'h_raw_any', 'B', defs={'RN': 3}, reach=['raw_any'], timeout=1700, clause='raw-stream framing (RawStreamProto::onRecvData with FindEndPos and the compiled JSON parser) on every text of <= 3 characters over { } [ ] \" 1 , space}: answer by return value, no exception'),
     Job('timeout.monitor', 'C14/proto.cpp', 'h_timeout_monitor', 'B', reach=['timeout_monitor'], timeout=900, clause='timeout monitor: add/tick scripts with retries from inside the timeout callback; each value completes exactly once'),
 ]
 META = dict(
